@@ -281,7 +281,7 @@ for fam in FAMILIES:
                  "number_of_interactions (4 forms), degree/in_/out_ (+_iter, node, nbunch, dict), degree_histogram, nodes (+data), "
                  "has_node, number_of_nodes, order, size, density(t omitted), is_empty, non_interactions, dn.* forms) returns "
                  "exactly what the static graph {(u,v): present at t} gives")
-for fam in ("u_path", "u_loop", "d_recip", "d_mixed"):
+for fam in ("u_path", "u_loop", "d_recip", "d_path"):
     directed, spec = FAMILIES[fam]
     REG.add("obs_acc_%s" % fam, T_obs, body, cfg=dict(family=fam, observers=ALLOBS, removal=False),
             tier="quick" if fam in ("u_path", "d_recip") else "thorough", timeout=900, tags=["all_present", "none_present"], twins=1,
